@@ -182,9 +182,6 @@ func traversalCoverage(w *World, p *packages.Package, fds []*ast.FuncDecl, m *de
 						if _, isOpt := m.optKind[n]; isOpt {
 							kinds[n] = true
 						}
-						if o, isKind := m.optsOf[n]; isKind {
-							kinds[o] = true
-						}
 					}
 				}
 			}
@@ -1033,6 +1030,61 @@ func rnStripUnknownPreserved(w *World) {
 		})
 	}
 	w.floor("message copies built by New() in source_retention_options.go", n, 2)
+	// a nil source path means "positions are not tracked here" (map values have no stable index,
+	// files without source info): path.push keeps it nil, and a nil path handed to addPath marks
+	// the *root* of the removed-paths trie, i.e. drops every location of the file. A call that
+	// passes a literal nil path must therefore hand over a throw-away accumulator (new(...) or the
+	// address of a fresh literal), never the caller's list of removed paths.
+	nNil := 0
+	for _, b := range allFuncBodies(p) {
+		if b.Lit != nil || !strings.HasSuffix(w.Fset.Position(b.Decl.Pos()).Filename, "source_retention_options.go") {
+			continue
+		}
+		ast.Inspect(b.Body, func(x ast.Node) bool {
+			c, ok := x.(*ast.CallExpr)
+			if !ok {
+				return true
+			}
+			f := callee(info, c)
+			if f == nil || f.Pkg() != p.Types {
+				return true
+			}
+			sig := f.Type().(*types.Signature)
+			pathIdx, accIdx := -1, -1
+			for i := 0; i < sig.Params().Len(); i++ {
+				t := sig.Params().At(i).Type()
+				if n, ok := t.(*types.Named); ok && n.Obj().Name() == "sourcePath" {
+					pathIdx = i
+				}
+				if pt, ok := t.(*types.Pointer); ok {
+					if sl, ok := pt.Elem().(*types.Slice); ok {
+						if n, ok := sl.Elem().(*types.Named); ok && n.Obj().Name() == "sourcePath" {
+							accIdx = i
+						}
+					}
+				}
+			}
+			if pathIdx < 0 || accIdx < 0 || pathIdx >= len(c.Args) || accIdx >= len(c.Args) || !isNilIdent(info, c.Args[pathIdx]) {
+				return true
+			}
+			nNil++
+			key := "nil-path-throwaway|" + b.Label + "|" + f.Name()
+			fresh := false
+			switch a := ast.Unparen(c.Args[accIdx]).(type) {
+			case *ast.CallExpr:
+				fresh = isBuiltinCall(info, a, "new")
+			case *ast.UnaryExpr:
+				_, fresh = a.X.(*ast.CompositeLit)
+			}
+			if fresh {
+				w.ok(key, c.Pos(), "the call that passes a nil path collects into a throw-away accumulator")
+			} else {
+				w.violation(key, c.Pos(), "a nil path is passed together with the shared accumulator "+types.ExprString(c.Args[accIdx])+": the nil paths recorded there reach sourcePathTrie.addPath, whose empty-path case marks the root as removed — every source code info location of the file is dropped")
+			}
+			return true
+		})
+	}
+	w.floor("calls passing a literal nil source path", nNil, 1)
 	// the whole-message drop must consider unknown bytes
 	nDrop := 0
 	ast.Inspect(strip.Decl.Body, func(x ast.Node) bool {
